@@ -415,8 +415,10 @@ class DemoStorage(ConflictResolvingStorage):
         self._commit_lock.acquire()
 
         with self._lock:
-            self.changes.tpc_begin(transaction, *a, **k)
+            # Set first: if the changes storage refuses to begin, tpc_abort
+            # must still recognize the transaction and release the locks.
             self._transaction = transaction
+            self.changes.tpc_begin(transaction, *a, **k)
             self._stored_oids = set()
             del self._resolved[:]
 
